@@ -263,6 +263,8 @@ PROPS["C01"] = {
             "the rule body of every active atom is re-evaluated on the reported values. "
             "About 2/3 of the problems are planted around a witness. Oracle when solve() returns true: every asserted constraint evaluates to true (three-valued, exact arithmetic "
             "with infinitesimals) on the reported values, for EVERY remaining value of the object variables it mentions; at least one disjunct of every disjunction statement holds. "
+            "The second observation channel of the property, the JSON of core::to_json() (what `oRatio <files> <out.json>` writes), is compared with the API on every solution: value of "
+            "every named numeric / boolean variable and of every atom parameter, state of every atom, and value within the lb/ub the JSON itself reports (counter json_values_compared). "
             "Non-trivial: solved and a relation over >= 2 variable occurrences, a disjunction statement or an object variable was evaluated. Distinct by program text.",
     "technique": "property-based testing with a typed program generator and an exact re-evaluation of the reported solution; configuration matrix",
     "level_text": "Random well-typed programs; the reported solution is re-evaluated against the program by an independent evaluator. Rule bodies are covered for smart-type predicates through "
@@ -291,9 +293,11 @@ PROPS["C04"] = {
             "optional reusable resources; 2-7 facts / goals addressed to an instance or through a variable (tau still a variable), times given as arguments, as windows "
             "(start >= a, end <= b, duration >= d) or left free, zero-length atoms, atoms touching at an endpoint, explicit precedences, bounded horizon. Oracle on every reported solution: "
             "for each state-variable instance no two Active atoms whose tau allows that instance have max(start) < min(end) (exact, infinitesimal-aware). Non-trivial: >= 2 active atoms on "
-            "one instance. Distinct by program text. All configurations of the run's matrix.",
+            "one instance. Second clause of the statement: the timeline solver::extract_timelines() returns for each state-variable instance is compared with the atoms read through the API: "
+            "its segments are exactly the intervals between consecutive distinct pulses (origin, horizon, starts and ends of the active atoms that may be on the instance), each segment lists "
+            "exactly the atoms covering it, and never more than one (counter extracted_segments_compared). Distinct by program text. All configurations of the run's matrix.",
     "technique": "property-based testing with planted schedules; validity predicate over the reported plan",
-    "level_text": "Random timeline problems; every reported plan is validated independently. Only reported solutions are judged. The timeline JSON of extract_timelines() is not compared.",
+    "level_text": "Random timeline problems; every reported plan is validated independently. Only reported solutions are judged. The timelines of solver::extract_timelines() are compared segment by segment with the atoms (added in the second build session).",
     "level_note": _PROB_TRUST,
     "assumptions": [],
 }
@@ -301,10 +305,12 @@ PROPS["C05"] = {
     "runs": _prob("C05", 1500, 40000, layers=("L3",), budget_ms=8000),
     "rule": "Generator of C04 biased to 1-3 ReusableResource instances with capacities in {0, 1, 3/2, 2, 4, 10} and Use atoms with amounts in {0, 1/2, 1, 2, 4, 5, exactly the remaining "
             "capacity}, resource fixed or a variable. Oracle on every reported solution: at every start pulse of an active Use atom the exact sum of the amounts of the active atoms with "
-            "start <= p < end whose tau allows the resource is <= the resource's capacity, and the reported capacity equals the declared one. Non-trivial: >= 2 atoms overlap on one resource "
+            "start <= p < end whose tau allows the resource is <= the resource's capacity, and the reported capacity equals the declared one. Second clause of the statement: in the timeline "
+            "solver::extract_timelines() returns for the resource, the segments are the intervals between consecutive pulses, each lists exactly the covering atoms, its usage equals the "
+            "exact sum of their amounts and is <= the capacity it reports, which equals the instance's (counter extracted_segments_compared). Non-trivial: >= 2 atoms overlap on one resource "
             "or >= 2 active atoms. Distinct by program text.",
     "technique": "property-based testing with planted schedules; exact sweep over the reported plan",
-    "level_text": "As C04. The per-segment usage of extract_timelines() is not compared.",
+    "level_text": "As C04; the per-segment usage of extract_timelines() is compared with an exact sum over the atoms.",
     "level_note": _PROB_TRUST,
     "assumptions": [],
 }
